@@ -214,4 +214,41 @@ theorem cnot_unitary (F : ℝ → ℝ) (phi_ctr phi_trg t_cnot p_cnot p_c p_t T2
   · exact single_qubit_unitary F _ _ _ _ hpc hc _
   · exact sx_unitary F _ _ _ hpt htt _
 
+
+/-- one step of "a product / Kronecker product / unimodular multiple of unitary constituents is unitary";
+the product tree itself comes from the generated definition, so the proof follows whatever the source says -/
+macro "unitary_step" : tactic => `(tactic| first
+  | (with_reducible apply mul_mem)
+  | (with_reducible apply kron2_mem_unitary)
+  | (with_reducible apply smul_unitary _ (by simp))
+  | (with_reducible apply cr_unitary <;> assumption)
+  | (with_reducible apply x_unitary <;> assumption)
+  | (with_reducible apply sx_unitary <;> assumption)
+  | (with_reducible apply single_qubit_unitary <;> assumption)
+  | (with_reducible apply relaxation_unitary <;> assumption))
+
+theorem cnot_inv_unitary (F : ℝ → ℝ) (phi_ctr phi_trg t_cnot p_cnot p_c p_t T2c T2t : ℝ)
+    (hcr : 0 ≤ CNOTInv.p_cr p_cnot p_c p_t) (ht : 0 < CNOTInv.t_cr t_cnot)
+    (hpc : 0 ≤ p_c) (hpt : 0 ≤ p_t) (hc : 0 ≤ T2c) (htt : 0 ≤ T2t)
+    (w : CNOTInv.Samples) (hI : w.relaxation_gate.I = 0) :
+    CNOTInv.construct F phi_ctr phi_trg t_cnot p_cnot p_c p_t 0 T2c 0 T2t w ∈ U4 := by
+  unfold CNOTInv.construct
+  repeat' unitary_step
+
+theorem ecr_unitary (F : ℝ → ℝ) (phi_ctr phi_trg t_ecr p_ecr p_c p_t T2c T2t : ℝ)
+    (hcr : 0 ≤ ECR.p_cr p_ecr p_c p_t) (ht : 0 < ECR.t_cr t_ecr)
+    (hpc : 0 ≤ p_c) (hpt : 0 ≤ p_t) (hc : 0 ≤ T2c) (htt : 0 ≤ T2t)
+    (w : ECR.Samples) (hI : w.relaxation_gate.I = 0) :
+    ECR.construct F phi_ctr phi_trg t_ecr p_ecr p_c p_t 0 T2c 0 T2t w ∈ U4 := by
+  unfold ECR.construct
+  repeat' unitary_step
+
+theorem ecr_inv_unitary (F : ℝ → ℝ) (phi_ctr phi_trg t_ecr p_ecr p_c p_t T2c T2t : ℝ)
+    (hcr : 0 ≤ ECRInv.p_cr p_ecr p_c p_t) (ht : 0 < ECRInv.t_cr t_ecr)
+    (hpc : 0 ≤ p_c) (hpt : 0 ≤ p_t) (hc : 0 ≤ T2c) (htt : 0 ≤ T2t)
+    (w : ECRInv.Samples) (hI : w.relaxation_gate.I = 0) :
+    ECRInv.construct F phi_ctr phi_trg t_ecr p_ecr p_c p_t 0 T2c 0 T2t w ∈ U4 := by
+  unfold ECRInv.construct
+  repeat' unitary_step
+
 end QG.C07
